@@ -926,6 +926,17 @@ class C09:
 
 
 def run(ctx: Ctx):
+    from .common import Settle as _Settle, soften_foreign as _soften
+    whole_ = _Settle(ctx)
+    try:
+        return _run(ctx)
+    finally:
+        # a finding of these rules about a function written in a formulation they cannot read (state carried through an unresolved
+        # loop, functional pipelines, helpers / objects / table entries the engine did not open) is not a finding: undecided
+        _soften(ctx, whole_, ("R09.", "R08.", "R19.2"))
+
+
+def _run(ctx: Ctx):
     ctx.rule("R09.1", "every (term, function) row agrees; terms distinct within a table", 16)
     ctx.rule("R09.2", "metric terms have pairwise distinct labels and names", 8)
     ctx.rule("R09.3", "wrappers delegate to the named scikit-learn function with the specified 'none' handling", 13)
@@ -937,6 +948,8 @@ def run(ctx: Ctx):
     ctx.rule("R09.10", "result objects get what their fields name; no reported list stays empty; table lookups under their membership test", 14)
     ctx.rule("R09.11", "task and clip scores are guarded means of the scores of exactly the objects reported next to them", 6)
     ctx.rule("R09.7", "the 'none' probability of an unlabelled item cannot go below 0 (float32 score sums)", 2)
+    from .common import Settle, soften_foreign
+    st_ = Settle(ctx)
     c = C09(ctx)
     c.tables()
     c.labels()
@@ -946,6 +959,8 @@ def run(ctx: Ctx):
     c.clip_evaluations_constructible()
     c.lockstep()
     c.flow()
+    # a finding of these rules about a function written in a formulation they cannot read (state carried through an unresolved loop,
+    # helpers / objects / table entries the engine did not open) is not a finding: undecided
     # "survives an AOEF save/load with every metric intact": the field-carry / elision rules of C01 on the three
     # metric-carrying adapters (anchored files io/aoef/evaluation.py, clip_evaluation.py, match.py)
     from .c01 import C01
